@@ -97,12 +97,12 @@ CLAIMED = {
              "Theorems, for EVERY graph (cycles, self-imports, repeated requests, any number of throwing bodies) and every sequence of Evaluate "
              "calls: visit_grows / visit_once (invariants of the walk), bodies_run_once (no module body runs twice, ever), "
              "reevaluate_runs_nothing (evaluating a module that already has a status runs no body, changes no status and returns the recorded "
-             "error if there is one), walked_has_status (so that applies to every module an earlier Evaluate reached). The model is the "
+             "error if there is one), walked_has_status (so that applies to every module an earlier Evaluate reached), deps_walked_before_body (when a module's body runs, every module it requests has already been walked: it is evaluated, or still evaluating — an ancestor on the stack, i.e. a cycle). The model is the "
              "executable spec: on generated graphs served by a counting in-memory loader the engine's sequence of bodies and the outcome of "
              "every Evaluate must equal the model's; host loads and parses are counted (at most one per module); imported bindings are "
              "checked to be live.",
         technique="Lean 4 invariant proofs over a model of InnerModuleEvaluation (once-only, idempotent re-evaluation) + model-predicted vs real evaluation order and outcomes on generated module graphs",
-        note="dependency-order for acyclic graphs is checked through the model's trace, not yet a theorem; top-level await, dynamic import, synthetic/JSON modules are outside the model.",
+        note="dependency order is proved as deps_walked_before_body (every request walked before the body); that a walked non-ancestor's body is earlier in the trace is checked through the model's trace only; top-level await, dynamic import, synthetic/JSON modules are outside the model.",
     ),
     "C10": dict(
         level="proof",
@@ -306,7 +306,7 @@ CLAIMED = {
 
 ALL = ["C%02d" % i for i in range(1, 21)]
 NOT_YET = "not claimed yet: model, correspondence and first theorem for this property are not built (see DESIGN.md §7 build order)"
-HOOK_COMMITS = ["ee8c1f4", "5c06b44", "e155a04", "1e55d63", "9e69b21", "f5f85fd", "f641ffa", "a4032f3", "c4c62fc", "4577c96"]
+HOOK_COMMITS = ["ee8c1f4", "5c06b44", "e155a04", "1e55d63", "9e69b21", "f5f85fd", "f641ffa", "a4032f3", "c4c62fc", "4577c96", "e6bad84"]
 
 
 def manifest():
